@@ -695,7 +695,7 @@ func init() {
 		ID: "C07", Level: "fault_enumeration",
 		QuickRuns: 2500, ThoroughRuns: 100000,
 		Gen: c07Gen, Exec: c07Exec, Shrink: c07Shrink,
-		Rule: "four families. sweep: a generated program is costed without a budget (N operations), then re-run with OpCountLimit = k for EVERY k <= min(N+1, 400) plus sampled larger k; each run must report the budget or return exactly the full program's outcome, within 16k+4096 ticks of the simulated clock (instruction dispatches + Roll calls); the fault-free run's NumOpCount must cover every instruction and die (constant dice of Fate/CoC instructions excepted). adversarial: resource-hungry programs (huge counts, exploding pools, recursion, doubling containers/strings, endless loops) under budgets {small, 30000} x normal/min/max mode: must end within the tick bound, with an error once over budget. parse: ParseExprLimit = k for k = 1..40 and 40 sampled larger values: error or full outcome, never a panic; in half of the cases the text is the body of a function / computed value restored from JSON, used twice on the same VM under each k: a refused first use must be refused again or yield exactly the unlimited first use (never a value from a partially compiled body). capacity: scaled program families whose value is known by construction (n-term sums, n nested blocks / template holes / templates / parentheses, n-element ranges, concats, repeats, literals, n-deep call chains, n pending operands), n across each built-in limit: the known value or an error; list lengths reached by repetition, concatenation and slice assignment (end index beyond the array, from the last element, negative end) are also checked against the range route: a length a range refuses to create must be refused there too; lazily compiled families (RunExpr, default-sides text, restored function) are used a second time on the same VM with the same demand. distinct = distinct (family, program, n); non-trivial = cost >= 5 operations (sweep) / n > 3 (capacity)",
+		Rule: "four families. sweep: a generated program is costed without a budget (N operations), then re-run with OpCountLimit = k for EVERY k <= min(N+1, 400) plus sampled larger k; each run must report the budget or return exactly the full program's outcome, within 16k+4096 ticks of the simulated clock (instruction dispatches + Roll calls); the fault-free run's NumOpCount must cover every instruction and die (constant dice of Fate/CoC instructions excepted). adversarial: resource-hungry programs (huge counts, exploding pools, recursion, doubling containers/strings, endless loops) under budgets {small, 30000} x normal/min/max mode: must end within the tick bound, with an error once over budget. parse: ParseExprLimit = k for k = 1..40 and 40 sampled larger values: error or full outcome, never a panic; in three fifths of the cases the text reaches the compiler indirectly - as the body of a function / computed value restored from JSON, or through an embedding program's stream syntax that reads an expression with ReadExpr and evaluates it with ComputedExecute - and is used twice on the same VM under each k; what Parse itself refuses for its size under the same k must be refused on these routes too; a refused first use must be refused again or yield exactly the unlimited first use (never a value from a partially compiled body). capacity: scaled program families whose value is known by construction (n-term sums, n nested blocks / template holes / templates / parentheses, n-element ranges, concats, repeats, literals, n-deep call chains, n pending operands), n across each built-in limit: the known value or an error; list lengths reached by repetition, concatenation and slice assignment (end index beyond the array, from the last element, negative end) are also checked against the range route: a length a range refuses to create must be refused there too; lazily compiled families (RunExpr, default-sides text, restored function) are used a second time on the same VM with the same demand. distinct = distinct (family, program, n); non-trivial = cost >= 5 operations (sweep) / n > 3 (capacity)",
 		Real: []string{"dicescript parser, compiler, VM, roll functions with their budget accounting"},
 		Stub: []string{"simulated clock (ticks counted by the step and roll hooks) as the measure of work and as watchdog"},
 		Assumptions: []string{"the bound 16*L+4096 is the check's constant: per-instruction constant dice (Fate 4, CoC 1) and the +100 call surcharge can never trip it, an uncounted pool must"},
